@@ -35,10 +35,12 @@ theorem allSeparated_true (g : MG Var) (c : Var) (bl : List Var) : ∀ (os : Lis
         · exact allSeparated_true g c bl os h o ho
 
 theorem firstExchangeable_single (cf : MG Var) (os : List Var) (c c' : Var)
-    (h : firstExchangeable cf os [c] = .ok (some c')) : c' = c ∧ rule2Applies cf os c = .ok true := by
-  unfold firstExchangeable at h
+    (h : firstExchangeable cf os [c] = .ok (some c')) : c' = c ∧ rule2Applies cf os c [] = .ok true := by
+  unfold firstExchangeable firstExchangeableIn at h
+  have hnil : [c].filter (fun k => decide (k ≠ c)) = [] := by simp
+  rw [hnil] at h
   simp only [bind, Except.bind, pure, Except.pure] at h
-  cases hr : rule2Applies cf os c with
+  cases hr : rule2Applies cf os c [] with
   | error e => rw [hr] at h; cases h
   | ok b =>
     rw [hr] at h
@@ -47,7 +49,7 @@ theorem firstExchangeable_single (cf : MG Var) (os : List Var) (c c' : Var)
       simp only [if_true, Except.ok.injEq, Option.some.injEq] at h
       exact ⟨h.symm, rfl⟩
     | false =>
-      simp only [Bool.false_eq_true, if_false, firstExchangeable] at h
+      simp only [Bool.false_eq_true, if_false, firstExchangeableIn] at h
       cases h
 
 theorem plain_inj {a b : Name} (h : Var.plain a = Var.plain b) : a = b := by
